@@ -50,7 +50,29 @@ normalizeTypeNameForInstantiation(const std::string &type_name) {
 TypeUtilityParser::TypeUtilityParser(RecursiveParser *parser)
     : parser_(parser) {}
 
+namespace {
+// Types nest through generic arguments (Box<Box<int>>) and function-type
+// parameter lists: every level is one more parseType() frame, and the
+// interpreter recurses once more per level when a value of the instantiated
+// type is created, copied and destroyed. Beyond this depth the input is
+// rejected with a diagnostic instead of exhausting the stack. A type can occur
+// inside a maximally nested expression (a cast), so this budget is spent on
+// top of the one of kMaxExpressionNesting in expression_parser.cpp.
+constexpr int kMaxTypeNesting = 100;
+
+struct NestingGuard {
+    int &depth;
+    explicit NestingGuard(int &d) : depth(d) { ++depth; }
+    ~NestingGuard() { --depth; }
+};
+} // namespace
+
 std::string TypeUtilityParser::parseType() {
+    if (nesting_depth_ >= kMaxTypeNesting) {
+        parser_->error("Type is nested too deeply");
+    }
+    NestingGuard guard(nesting_depth_);
+
     // CRITICAL FIX: Initialize parsed with default values to prevent stale data
     ParsedTypeInfo parsed =
         ParsedTypeInfo(); // Use default constructor explicitly
